@@ -11,7 +11,8 @@ SPEC = dict(
                "updated, merged and forked, and every observation is judged against the state the independent spec decoder reads from the "
                "same bytes: an image that is valid under the format must be accepted and must hold exactly the encoded state.",
     level_note="Trusted: my reading of the DataSketches Java/C++ formats (DESIGN.md Appendix A); no upstream-generated files are available "
-               "offline. Families covered are listed in the parts (Props/C13.v: Count-Min; Props/C13_<family>.v).",
+               "offline. Families covered are listed in the parts (Props/C13.v: Count-Min; Props/C13_<family>.v). CPC is not among the families "
+               "C13's text and anchors name and has no part in this property (CPC images: C11/C12/C14).",
     technique="Coq theorem reader-vs-spec-encoder per format variant + differential testing of the crate's reader on spec-encoded images",
     trusted=["format specification = my reading of the published Java/C++ layouts (no upstream files available offline)",
              "countmin: Count-Min exists in C++ only; 8-byte weights (count_min_sketch<uint64_t/int64_t>) are taken as the format; "
